@@ -52,6 +52,8 @@ func extractC15(c *Ctx) {
 		for _, st := range fd.Body.List {
 			s := squash(c.Src(st))
 			switch {
+			case strings.HasPrefix(s, "iferr:=r.retrieveDependencies(client,descriptors,&bundles);err!=nil{"):
+				order = append(order, "retrieve-deps")
 			case strings.HasPrefix(s, "newProtoHash:=hashNamedProtoBundles(bundles)"):
 				order = append(order, "hash:proto")
 			case strings.HasPrefix(s, "newServicesHash:=hashServiceNames(serviceNames)"):
